@@ -112,10 +112,14 @@ def separate(movable, fixed, delta):
         if prev is not None and t < prev + delta:
             t = prev + delta
         moved = True
+        guard = 0
         while moved:
             moved = False
+            guard += 1
+            if guard > 10000:
+                raise HarnessError("separate() does not terminate")
             for f in fx:
-                if abs(t - f) < delta:
+                if abs(t - f) < delta * (1.0 - 1e-9):
                     t = f + delta
                     moved = True
         out[key] = t
